@@ -216,7 +216,8 @@ def contraction_bound(prob):
 
 
 # ------------------------------------------------------------------------------------------------ presentations
-PLACEMENTS = ["explicit", "explicit_nt", "module", "module_mixed", "editable", "editable_derived", "editable_mixed"]
+PLACEMENTS = ["explicit", "explicit_nt", "module", "module_mixed", "editable", "editable_derived", "editable_mixed",
+              "explicit_dup", "module_dup"]        # *_dup: one tensor supplied in two places (twice in params / held by the module and in params)
 
 
 class Presentation:
@@ -258,7 +259,7 @@ def present(prob, placement, grad_names=(), spy=True):
 
     exnames = list(ex.keys())
 
-    if placement in ("explicit", "explicit_nt"):
+    if placement in ("explicit", "explicit_nt", "explicit_dup"):
         # params: tensors and the non-tensor extras interleaved; explicit_nt adds ignored non-tensor / no-grad params
         order = []
         for i, k in enumerate(names):
@@ -271,6 +272,8 @@ def present(prob, placement, grad_names=(), spy=True):
             order.insert(1, ("n", "label"))
             order.append(("n", None))
             order.append(("u", "unused_tensor"))
+        if placement == "explicit_dup":
+            order.append(("t2", names[0]))      # the same tensor object once more: the function uses the mean of the two slots
 
         def fcn(y, *params):
             th, exv = {}, {}
@@ -279,10 +282,13 @@ def present(prob, placement, grad_names=(), spy=True):
                     th[k] = p
                 elif kind == "x":
                     exv[k] = p
+            for (kind, k), p in zip(order, params):
+                if kind == "t2":
+                    th[k] = 0.25 * th[k] + 0.75 * p
             return value(y, th, exv)
         params = []
         for kind, k in order:
-            if kind == "t":
+            if kind in ("t", "t2"):
                 params.append(leaves[k])
             elif kind == "x":
                 params.append(ex[k])
@@ -292,9 +298,10 @@ def present(prob, placement, grad_names=(), spy=True):
                 params.append(torch.ones(2, dtype=prob.theta[names[0]].dtype))
         P.fcn, P.params = fcn, params
         P.materialize = lambda lv: {k: lv[k] for k in names}
-    elif placement in ("module", "module_mixed"):
-        held = names if placement == "module" else names[:1]
+    elif placement in ("module", "module_mixed", "module_dup"):
+        held = names if placement in ("module", "module_dup") else names[:1]
         rest = [k for k in names if k not in held]
+        dup = placement == "module_dup"
 
         def __init__(self):
             torch.nn.Module.__init__(self)
@@ -305,14 +312,16 @@ def present(prob, placement, grad_names=(), spy=True):
             th = {k: getattr(self, k) for k in held}
             for k, p in zip(rest, params):
                 th[k] = p
-            exv = dict(zip(exnames, params[len(rest):]))
+            exv = dict(zip(exnames, params[len(rest):len(rest) + len(exnames)]))
+            if dup:     # the module's own first parameter is passed explicitly as well
+                th[names[0]] = 0.25 * th[names[0]] + 0.75 * params[-1]
             return value(y, th, exv)
         cls = type("VfOptModule%d" % next(_cls_counter), (torch.nn.Module,), {"__init__": __init__, "forward": forward})
         obj = cls()
         for k in held:
             leaves[k] = getattr(obj, k)
         P.obj, P.fcn = obj, obj.forward
-        P.params = [leaves[k] for k in rest] + [ex[k] for k in exnames]
+        P.params = [leaves[k] for k in rest] + [ex[k] for k in exnames] + ([leaves[names[0]]] if dup else [])
         P.materialize = lambda lv: {k: lv[k] for k in names}
     elif placement in ("editable", "editable_derived", "editable_mixed"):
         import xitorch
